@@ -111,7 +111,12 @@ def pad_to_bar(ctx, rule='PAD/next-bar-line'):
   for fq in ('melodies_lib:Melody.from_quantized_sequence', 'drums_lib:DrumTrack.from_quantized_sequence'):
     fi = ctx.func(fq)
     tail = []
-    for st in reversed(fi.node.body):
+    body_ = fi.node.body
+    # the closing block may sit under `if self._events:` (nothing to pad when nothing was extracted)
+    while body_ and isinstance(body_[-1], ast.If) and not body_[-1].orelse and any(isinstance(c_, ast.Call) and norm_text(c_.func) == 'self.set_length' for c_ in ast.walk(body_[-1])) and \
+        not any(isinstance(c_, ast.Call) and norm_text(c_.func) == 'self.set_length' for s_ in body_[-1].body[-1:] for c_ in ast.walk(s_) if isinstance(s_, ast.If)):
+      body_ = body_[-1].body
+    for st in reversed(body_):
       simple = isinstance(st, (ast.Assign, ast.AugAssign)) or (isinstance(st, ast.Expr) and isinstance(st.value, ast.Call)) or \
           (isinstance(st, ast.If) and all(isinstance(x, (ast.Assign, ast.AugAssign)) for x in st.body + st.orelse))
       if not simple:
